@@ -952,7 +952,8 @@ class Explorer:
                     self.havoc_ref(st, args[i], (path, i), site)
             self.write_place(st, fr, dest, res, site)
             return self.after_call(st, fr, target)
-        if callee is not None and args and all(a[0] == "c" or (a[0] == "agg" and not a[3]) for a in args) and len(stack) < 10:
+        if callee is not None and args and all(a[0] == "c" or (a[0] == "agg" and not a[3]) for a in args) and len(stack) < 10 \
+                and not any(path.endswith(x) for x in getattr(self, "no_fold", ())):
             # constant folding through small in-crate functions (conversion tables, try_from on constants)
             self.stats["inlined"].add(path)
             return self.enter(st, stack, fr, callee, args, dest, target, None)
@@ -1380,6 +1381,26 @@ class Explorer:
                 if inner[0] == "agg":
                     return ret(inner)
                 return ret(inner)
+            if v[0] == "sym":
+                # flatten(None) = None, flatten(Some(x)) = x: decide the outer variant, keep the inner option as it is
+                OPT = "std::option::Option"
+                dt = ("discr", v[1], OPT)
+                alts = []
+                for variant in ("Some", "None"):
+                    s2 = st.clone()
+                    if not self.constrain(s2, dt, "eq", self.variant_discr(OPT, variant)):
+                        continue
+                    k2 = self.clone_stack(stack)
+                    val = SYM(self.cap(("field", v[1], 0))) if variant == "Some" else AGG(OPT, "None")
+                    self.write_place(s2, k2[-1], dest, val, site)
+                    if target is None:
+                        continue
+                    k2[-1].bb = target
+                    alts.append((s2, k2))
+                if not alts:
+                    self.finish_path(st, None, "diverge")
+                    return "stop"
+                return ("fork", alts)
             return None
         # ---- enum equality
         if p in ("std::cmp::PartialEq::eq", "std::cmp::PartialEq::ne"):
@@ -1676,9 +1697,13 @@ def default_inline(ex, callee, info):
         return True
     if callee.get("name") == "try_from" and callee.get("impl_self", "").startswith("mqtt::packet::enum_store_packet::GenericStorePacket"):
         return True      # Publish/Pubrel -> stored packet: decided by the same qos() atom the handler tested
-    if callee.get("kind") == "Fn" and not callee.get("pub") and callee["path"].startswith("mqtt::packet::") and len(callee["blocks"]) <= 14:
+    if small_private_helper(callee):
         return True      # small private helper of a packet module (e.g. a predicate factored out of build()/parse())
     return False
+
+
+def small_private_helper(callee):
+    return callee.get("kind") == "Fn" and not callee.get("pub") and callee["path"].startswith("mqtt::packet::") and len(callee["blocks"]) <= 14
 
 
 BUILDER_RE = re.compile(r"^mqtt::packet::.*Builder(<.*>)?$")
